@@ -15,7 +15,7 @@ RULE = ('program = chain started -> c1 -> .. -> cL (L <= 3) x position of the st
         'action; each program = 2 consecutive run() cycles on one manager plus stop() while not running; part 2: stop() from a second '
         'thread under the E2 scheduler; non-trivial = every program (each exercises a stop placement); distinct = distinct program/schedule')
 ASSUMPTIONS = [
-    'exit code 0: returning normally and raising SystemExit(0) are both accepted (same process exit status)',
+    'an exit code is any value other than None: stop(0) / SystemExit(0) must reach the caller of run() as SystemExit(0)',
     'an idle loop is kept from sleeping by a generate_events handler that asks for zero time (the Driver), as a poller with pending work would',
     'events fired by a handler after it raised SystemExit/KeyboardInterrupt do not exist (the raise aborts the handler); the ghost log decides what was fired',
 ]
@@ -138,8 +138,6 @@ def judge(program, w, marks):
         code = act[1] if len(act) > 1 else None
         if code in (None,):
             ok = res == ('return', None)
-        elif code == 0:
-            ok = res == ('return', None) or res == ('raise', 'SystemExit', 0)
         else:
             ok = res == ('raise', 'SystemExit', code)
         if not ok:
